@@ -1,7 +1,10 @@
 """C04 — template inheritance vs an independent inheritance resolver."""
 from __future__ import annotations
 
+import html
+
 from vt import util
+from vt.checks import c16
 from vt.gen import jast, tplgen
 from vt.model import interp as M
 
@@ -11,7 +14,10 @@ TECHNIQUE = "reference-model monitor: random inheritance hierarchies rendered by
 RULE = ("random inheritance chains (depth 1-4, 1-5 block names, nested blocks, super / super.super / "
         "self calls, scoped blocks in loops, required blocks, conditional and dynamic extends, "
         "content outside blocks) with unique text markers, rendered from a DictLoader (sync and async) "
-        "and compared with vt.model.interp; distinct = (depth, per-level override bitmaps, "
+        "and compared with vt.model.interp; every third hierarchy is rendered again with HTML "
+        "metacharacters in the data and escaping switched on locally ({% autoescape true %} inside "
+        "every block and around top-level runs, environment autoescape off): unescaped once it "
+        "must still be the model's output; distinct = (depth, per-level override bitmaps, "
         "super, super.super, self, scoped, required, dynamic, conditional, nested) tuples")
 LEVEL_TEXT = "held on the generated hierarchies only"
 ASSUMPTIONS = [
@@ -24,11 +30,14 @@ FLOORS = {
     "quick": {"evaluations": 3000, "distinct": 200,
               "counters": {"compares": 3000, "uses_super": 300, "uses_self": 100,
                            "uses_scoped": 100, "uses_required": 50, "required_error": 10,
-                           "uses_scoped_reads_loop": 50, "uses_block_in_toplevel_if": 100}},
+                           "uses_scoped_reads_loop": 50, "uses_block_in_toplevel_if": 100,
+                           "local_autoescape_compares": 500, "local_autoescape_super_or_self_with_entities": 100}},
     "thorough": {"evaluations": 60000, "distinct": 2000,
                  "counters": {"compares": 60000, "uses_super": 6000, "uses_self": 2000,
                               "uses_scoped": 2000, "uses_required": 1000, "required_error": 200,
-                              "uses_scoped_reads_loop": 1000, "uses_block_in_toplevel_if": 2000}},
+                              "uses_scoped_reads_loop": 1000, "uses_block_in_toplevel_if": 2000,
+                              "local_autoescape_compares": 10000,
+                              "local_autoescape_super_or_self_with_entities": 2000}},
 }
 
 
@@ -76,6 +85,34 @@ def check(ctx, templates, leaf, data):
             return
 
 
+def check_local_autoescape(ctx, templates, leaf, data, rng):
+    """The same hierarchy, data with HTML metacharacters, escaping on only inside
+    {% autoescape true %} regions: escaping must not change WHICH definitions are rendered,
+    and super()/self.x() results must not be escaped a second time."""
+    data = dict(data)
+    for k, v in list(data.items()):
+        if isinstance(v, str):
+            data[k] = rng.choice(c16.HOT)
+        elif isinstance(v, list) and v and all(isinstance(x, str) for x in v):
+            data[k] = [rng.choice(c16.HOT) for _ in v]
+    mo = util.capture(lambda: M.Interp(templates).render(leaf, data))
+    if not mo.ok:
+        return
+    local = {n: c16.localize(b, ["const", True], True) for n, b in templates.items()}
+    for is_async in (False, True):
+        eo, srcs = engine_render(local, leaf, data, is_async)
+        ctx.ev()
+        ctx.count("local_autoescape_compares")
+        if eo.ok and "&" in eo.value and any("super()" in s or "self." in s for s in srcs.values()):
+            ctx.count("local_autoescape_super_or_self_with_entities")
+        if not eo.ok or html.unescape(eo.value) != mo.value:
+            ctx.violation("inherit:local-autoescape-region",
+                          f"engine {eo!r}, unescaped once, != model {mo.value!r} | templates={srcs} "
+                          f"leaf={leaf} data={data} async={is_async}",
+                          {"templates": templates, "leaf": leaf, "data": data, "local": True})
+            return
+
+
 def run(ctx):
     rng = ctx.rng("h")
     n = 3000 if ctx.tier == "quick" else 80000
@@ -90,6 +127,8 @@ def run(ctx):
         # every intermediate template is renderable on its own, too
         if rng.random() < 0.3 and leaf != "t0":
             check(ctx, templates, "t0", data)
+        if i % 3 == 0:
+            check_local_autoescape(ctx, templates, leaf, data, rng)
         ctx.dist([shape, sorted(k for k, v in g.info.items() if v)])
         if i < 2:
             ctx.sample({"templates": {n: jast.ps(b) for n, b in templates.items()}, "leaf": leaf, "data": data})
@@ -97,4 +136,8 @@ def run(ctx):
 
 
 def replay(ctx, case):
+    if case.get("local"):
+        import random
+        check_local_autoescape(ctx, case["templates"], case["leaf"], case["data"], random.Random(0))
+        return
     check(ctx, case["templates"], case["leaf"], case["data"])
